@@ -43,7 +43,7 @@ CHECKS = {
             "sampling beyond 2 operations; name/body pools without protocol look-alikes (C17 covers those)", "4/C15"),
     "C16": ("spec/MSCommon.tla ChooseMech + spec/MSSessionTrace.tla MechRight / ConnectTrue clauses on the observed trace for all ordered mechanism lists x preferences x verdicts; AUTHENTICATE payloads decoded per mechanism (RFC 4616, LOGIN, RFC 7628)",
             "the mechanism written equals ChooseMech(announced, preferred), nothing is written when none qualifies, the payload carries exactly the caller's credentials, connect is True iff the server said OK",
-            "payload decoders trusted; DIGEST-MD5 exchange not decoded (open finding F10: the module crashes)", "4/C16"),
+            "payload decoders and the RFC 2831 server side (harness/digestmd5.py) trusted; DIGEST-MD5 is verified step by step (challenge, response digest recomputed from the caller's credentials, rspauth, final OK)", "4/C16"),
     "C06": ("spec/FilterDefs.tla: token skeleton and extension set of every documented definition form; SkeletonValid and RequireExact model-checked against SieveGrammar; each definition built through the API with concrete values per value class, real output lexed independently and compared token by token with the skeleton, require list checked, real parser asked, observed tokens judged by TLC (SieveTrace)",
             "for every definition of the space the generated script's tokens equal the skeleton (values only as string contents), the require names every used extension, parser and reference recogniser accept it strictly, also when the filter is disabled",
             "value classes stand for all values of their kind; definitions with value starting with a quote excluded (property)", "4/C06"),
